@@ -351,10 +351,16 @@ where
                                     }
                                 }
 
+                                // a range that ends before it starts selects nothing
+                                let count = match end.checked_sub(*start) {
+                                    Some(span) if span >= 0 => span as usize + 1,
+                                    _ => 0,
+                                };
+
                                 top_level_con_items
                                     .iter()
                                     .skip(*start as usize)
-                                    .take((end - start) as usize + 1)
+                                    .take(count)
                                     .map(usize::clone)
                                     .for_each(|i| items.push(i));
                             }
